@@ -262,6 +262,28 @@ def element_symbols(chk, rule="element-symbols"):
                "atomic_number constants named after another element: %s" % wrong[:4])
 
 
+def categories_declared_once(chk, rule="categories-declared-consistently"):
+    """A category id that is declared more than once must carry the same display name every time: load_defs keeps whichever
+    declaration comes last in the input, so two different names make the loaded database depend on the order of the
+    definitions (C12) and the heading of `units for` with it."""
+    bad = []
+    n = 0
+    for name in ("definitions.units", "currency.units"):
+        seen = {}
+        for x in defs(name):
+            if x["kind"] == "category":
+                n += 1
+                disp = x.get("display") or x.get("display_name") or x.get("text") or x.get("doc")
+                if x["name"] in seen and seen[x["name"]] != disp:
+                    bad.append("%s: category %s is declared as %r and as %r" % (name, x["name"], seen[x["name"]], disp))
+                seen.setdefault(x["name"], disp)
+    chk.decide(not bad, rule, "core data files", "one-display-name-per-category", "core/definitions.units",
+               "%d category declarations; every category id has one display name" % n,
+               "category ids declared with different display names: %s" % "; ".join(bad[:3]))
+    if n < 50:
+        chk.anchor_lost(rule, "core data files", "only %d category declarations found" % n)
+
+
 def overlay_rebinding(chk, rule="overlay-does-not-rebind"):
     """The currency overlay is loaded after (and separately from) definitions.units, so the values of the base entries
     are already fixed; the recorded definition text of a base entry keeps meaning what it meant only if every identifier
